@@ -255,9 +255,15 @@ func (s *muxerSegmenter) writeH265(
 ) error {
 	randomAccess := false
 	codec := track.Codec.(*codecs.H265)
+	vclPresent := false
 
 	for _, nalu := range au {
 		typ := h265.NALUType((nalu[0] >> 1) & 0b111111)
+
+		// NAL unit types 0-31 carry slice data
+		if typ < 32 {
+			vclPresent = true
+		}
 
 		switch typ {
 		case h265.NALUType_IDR_W_RADL, h265.NALUType_IDR_N_LP, h265.NALUType_CRA_NUT:
@@ -287,6 +293,11 @@ func (s *muxerSegmenter) writeH265(
 				s.paramsMutex.Unlock()
 			}
 		}
+	}
+
+	// an access unit without slices (parameter sets only) is not a picture
+	if !vclPresent {
+		return nil
 	}
 
 	paramsChanged := false
